@@ -112,7 +112,11 @@ func seqCase(c *run.Case, w *run.Worker, r *gen.Rng) {
 		}
 		switch {
 		case k < 42: // Get
-			data, err := comp.Get(ctx, o.d).ToByteSlice(1 << 24)
+			var data []byte
+			var err error
+			if !seqCall(c, e, fmt.Sprintf("Get(%d) through %s over %v", o.idx, kind, st), func() { data, err = comp.Get(ctx, o.d).ToByteSlice(1 << 24) }) {
+				return
+			}
 			nf, canc := e.faultsOf(op)
 			disturbed := nf > 0 || canc || staleQueuedCache(o, err, vAsk)
 			h := fmt.Sprintf("Get(%d)[sink=%v source=%v] -> %s disturbed=%v", o.idx, preSink, preSource, errRes(err), disturbed)
@@ -126,7 +130,13 @@ func seqCase(c *run.Case, w *run.Worker, r *gen.Rng) {
 				}
 			}
 		case k < 50: // GetFromComposite
-			data, err := comp.GetFromComposite(ctx, o.d, o.child, prefixSlicer{}).ToByteSlice(1 << 24)
+			var data []byte
+			var err error
+			if !seqCall(c, e, fmt.Sprintf("GetFromComposite(%d) through %s over %v", o.idx, kind, st), func() {
+				data, err = comp.GetFromComposite(ctx, o.d, o.child, prefixSlicer{}).ToByteSlice(1 << 24)
+			}) {
+				return
+			}
 			nf, canc := e.faultsOf(op)
 			disturbed := nf > 0 || canc || staleQueuedCache(o, err, vAsk)
 			h := fmt.Sprintf("GetFromComposite(%d)[sink=%v source=%v] -> %s disturbed=%v", o.idx, preSink, preSource, errRes(err), disturbed)
@@ -141,7 +151,10 @@ func seqCase(c *run.Case, w *run.Worker, r *gen.Rng) {
 			}
 		case k < 65: // Put
 			b, tr := model.NewTrackedCASBuffer(o.d, model.SourceSpec{Data: o.data, Chunks: r.Chunking(len(o.data), true)}, buffer.UserProvided)
-			err := comp.Put(ctx, o.d, b)
+			var err error
+			if !seqCall(c, e, fmt.Sprintf("Put(%d) through %s", o.idx, kind), func() { err = comp.Put(ctx, o.d, b) }) {
+				return
+			}
 			nf, canc := e.faultsOf(op)
 			disturbed := nf > 0 || canc
 			h := fmt.Sprintf("Put(%d) -> %s disturbed=%v", o.idx, errRes(err), disturbed)
@@ -186,7 +199,11 @@ func seqCase(c *run.Case, w *run.Worker, r *gen.Rng) {
 					onlySecondary++
 				}
 			}
-			m, err := comp.FindMissing(ctx, setOf(objs, idx))
+			var m digest.Set
+			var err error
+			if !seqCall(c, e, fmt.Sprintf("FindMissing(%v) through %s over %v", idx, kind, st), func() { m, err = comp.FindMissing(ctx, setOf(objs, idx)) }) {
+				return
+			}
 			nf, canc := e.faultsOf(op)
 			disturbed := nf > 0 || canc
 			got := map[int]bool{}
@@ -431,7 +448,11 @@ func ecacheCase(c *run.Case, w *run.Worker, r *gen.Rng) {
 				history = append(history, fmt.Sprintf("RemoveExisting(%v) hid %v", idx, hidden))
 			} else {
 				ev0 := e.eventCount()
-				m, err := ba.FindMissing(ctx, setOf(objs, idx))
+				var m digest.Set
+				var err error
+				if !seqCall(c, e, "FindMissing through the existence-caching decorator", func() { m, err = ba.FindMissing(ctx, setOf(objs, idx)) }) {
+					return
+				}
 				evs := e.snapshotEvents()
 				forwarded := map[string]bool{}
 				for _, ev := range evs[ev0:] {
